@@ -7,6 +7,10 @@ import (
 
 // runDomains is the body of C05: every endpoint x domain class x admin-IP configuration x source address.
 func runDomains(t *testing.T, rc *RunCtx) {
+	if rc.Param("mode", "") == "edge" {
+		runSourceEdge(t, rc)
+		return
+	}
 	ch := rc.Ch
 	ipPool := []string{"10.0.0.1", "10.0.0.2", "192.168.7.9", "::1", "2001:db8::1", "fe80::1",
 		"10.0.0.1 ", "10.0.0.01", "10.0.0.1:443", "10.0.0.3", "10.0.1.1", "::2", "2001:db8::2", "2001:db8:ffff:1::99", "2001:db9::1", "fe80::2", "::ffff:10.0.0.1"}
